@@ -188,6 +188,43 @@ def more_definitions():
                 return f'stoch(slowk_matype={kt}, slowd_matype={dt}): %K differs from MA_{kt}(raw %K): {gotk[-1]} vs {kk[-1]}'
             if not indic.close_enough(gotd[-20:], dd[-20:], 1e-7):
                 return f'stoch(slowk_matype={kt}, slowd_matype={dt}): %D = {gotd[-1]} but MA_{dt}(%K) = {dd[-1]}'
+    # MACD = EMA(fast) - EMA(slow), signal = EMA(MACD, signal period), for every order of the two periods (the statement says "for all
+    # parameters": fast > slow is a legal call and simply has the opposite sign)
+    c = indic.candles(150, 8, 'random')
+    close = c[:, 2]
+    for fp, sp, sg in ((12, 26, 9), (5, 8, 3), (26, 12, 9), (20, 10, 5), (7, 7, 4)):
+        r = ta.macd(c, fast_period=fp, slow_period=sp, signal_period=sg, sequential=True)
+        def ema_ref(xs, per):
+            # the recurrence of the statement; the start-up seed (first price) has decayed where the values are compared
+            a_ = 2.0 / (per + 1)
+            o = [float(xs[0])]
+            for v in xs[1:]:
+                o.append(a_ * float(v) + (1 - a_) * o[-1])
+            return np.asarray(o)
+        want = ema_ref(close, fp) - ema_ref(close, sp)
+        got = np.asarray(r.macd, dtype=float)
+        lo = max(fp, sp) + 5
+        if not indic.close_enough(got[lo:], want[lo:], 1e-7):
+            return f'macd(fast={fp}, slow={sp}): macd line {got[-1]} is not EMA({fp}) - EMA({sp}) = {want[-1]}'
+        hist = np.asarray(r.hist, dtype=float)
+        sig = np.asarray(r.signal, dtype=float)
+        if not indic.close_enough(hist[lo + sg:], (got - sig)[lo + sg:], 1e-7):
+            return f'macd(fast={fp}, slow={sp}): histogram is not macd - signal'
+    # trailing-window averages are exact wherever a full window exists - also on an input that is exactly one window long, which is
+    # what a non-sequential call with period = warm-up window sees
+    for n, p in ((5, 5), (6, 5), (14, 14), (30, 30), (31, 30)):
+        c = indic.candles(n, 9, 'random')
+        close = c[:, 2].tolist()
+        for name in ('sma', 'wma'):
+            got = np.asarray(getattr(ta, name)(c, p, sequential=True), dtype=float)
+            want = np.asarray(getattr(K, name)(close, p), dtype=float)
+            if len(got) != n or not indic.close_enough(got[p - 1:], want[p - 1:], 1e-9):
+                return f'{name}(period={p}) on {n} candles: {got[p - 1:]} but the window definition gives {want[p - 1:]}'
+        for mt in (0, 2):
+            got = np.asarray(ta.ma(c, period=p, matype=mt, sequential=True), dtype=float)
+            want = np.asarray((K.sma if mt == 0 else K.wma)(close, p), dtype=float)
+            if not indic.close_enough(got[p - 1:], want[p - 1:], 1e-9):
+                return f'ma(matype={mt}, period={p}) on {n} candles: {got[p - 1:]} but the window definition gives {want[p - 1:]}'
     # standard deviation: population std of the trailing window (two-pass), also at a huge price level with small dispersion
     for level in (0.0, 1e9):
         c = indic.candles(80, 7, 'random')
